@@ -139,37 +139,104 @@ theorem decodeSegmentsChk_eq (i : Info) (data : List Byte) (n : Nat) (offs : Lis
 
 /-! ## frame level -/
 
+/-- the FrameInfo guard of commit 9650374 -/
+def Info.Rejected (i : Info) : Prop := i.bitsAllocated = 0 ∨ i.numberOfSegments < 1 ∨ i.numberOfSegments > 15
+
+instance (i : Info) : Decidable i.Rejected := by unfold Info.Rejected; infer_instance
+
+/-- decodeFrameC once the three leading tests are decided -/
+theorem decodeFrameC_body (i : Info) (data : List Byte) (h0 : ¬ data.length = 0) (hg : ¬ i.Rejected)
+    (hm : ¬ i.frameSize > maxAlloc) : decodeFrameC i data = decodeFrameBody i data := by
+  unfold Info.Rejected at hg
+  unfold decodeFrameC
+  rw [if_neg h0, if_neg hg, if_neg hm]
+
+theorem bytesAllocated_le (i : Info) : i.bytesAllocated ≤ 8192 := by
+  unfold Info.bytesAllocated; omega
+
+theorem bytesAllocated_pos (i : Info) : 1 ≤ i.bytesAllocated := by
+  unfold Info.bytesAllocated; omega
+
+theorem nativeLen_eq (i : Info) : i.nativeLen = i.numberOfSegments * (i.width * i.height) := by
+  unfold Info.nativeLen Info.numberOfSegments
+  simp only [Nat.mul_assoc]
+
+theorem nativeLen_eq_samples (i : Info) : i.nativeLen = i.bytesAllocated * i.samples := by
+  unfold Info.nativeLen Info.samples
+  simp only [Nat.mul_assoc, Nat.mul_comm, Nat.mul_left_comm]
+
+theorem frameSize_le_native (i : Info) : i.frameSize ≤ i.nativeLen + 1 := by
+  unfold Info.frameSize; simp only; split <;> omega
+
+/-- with the guard, the frame buffer is at most 15 bytes per pixel position (+1 pad): for uint16
+    extents that is ≤ 15·65535² + 1 = 64 422 441 376 bytes, far below what `make` refuses -/
+theorem frameSize_le_of_accepted (i : Info) (hg : ¬ i.Rejected) (hu : i.U16) :
+    i.frameSize ≤ 15 * (65535 * 65535) + 1 := by
+  unfold Info.Rejected at hg
+  have h1 := frameSize_le_native i
+  rw [nativeLen_eq] at h1
+  have hn : i.numberOfSegments ≤ 15 := by omega
+  have hw : i.width ≤ 65535 := by have := hu.1; omega
+  have hh : i.height ≤ 65535 := by have := hu.2.1; omega
+  have h2 : i.width * i.height ≤ 65535 * 65535 := Nat.mul_le_mul hw hh
+  have h3 : i.numberOfSegments * (i.width * i.height) ≤ 15 * (65535 * 65535) := Nat.mul_le_mul hn h2
+  omega
+
+theorem frameSize_le_maxAlloc (i : Info) (hg : ¬ i.Rejected) (hu : i.U16) : i.frameSize ≤ maxAlloc := by
+  have := frameSize_le_of_accepted i hg hu
+  unfold maxAlloc
+  omega
+
 theorem decodeFrameC_no_store_panic (i : Info) (data : List Byte) :
     (decodeFrameC i data).1 ≠ .panic .store := by
-  unfold decodeFrameC
-  split
-  · simp
-  · split
-    · simp
-    · split
-      · simp
-      · split
-        · simp
-        · have h := decodeSegmentsChk_ne_oob i data ‹_› ‹_› ‹_› 0 (Array.replicate i.frameSize 0)
-          split
-          · exact absurd ‹_› h
-          · simp
-          · simp
+  by_cases h0 : data.length = 0
+  · unfold decodeFrameC; rw [if_pos h0]; simp
+  by_cases hg : i.Rejected
+  · unfold Info.Rejected at hg; unfold decodeFrameC; rw [if_neg h0, if_pos hg]; simp
+  by_cases hm : i.frameSize > maxAlloc
+  · unfold Info.Rejected at hg; unfold decodeFrameC; rw [if_neg h0, if_neg hg, if_pos hm]; simp
+  rw [decodeFrameC_body i data h0 hg hm]
+  unfold decodeFrameBody
+  cases parseHeader data with
+  | none => simp
+  | some p =>
+    obtain ⟨n, offs⟩ := p
+    simp only
+    by_cases hn : n ≠ i.numberOfSegments
+    · rw [if_pos hn]; simp
+    · rw [if_neg hn]
+      have h := decodeSegmentsChk_ne_oob i data n offs n 0 (Array.replicate i.frameSize 0)
+      cases hd : decodeSegmentsChk i data n offs n 0 (Array.replicate i.frameSize 0) with
+      | ok b => simp
+      | error e =>
+        cases e with
+        | oob => exact absurd hd h
+        | err e' => simp
 
-theorem decodeFrameC_total_of_alloc (i : Info) (data : List Byte) (ha : i.frameSize ≤ maxAlloc) (s : Site) :
+/-- FULL: `Codec.decodeFrame` has no panic outcome, for every uint16 FrameInfo and every byte string -/
+theorem decodeFrameC_total (i : Info) (hu : i.U16) (data : List Byte) (s : Site) :
     (decodeFrameC i data).1 ≠ .panic s := by
   cases s with
   | store => exact decodeFrameC_no_store_panic i data
   | makeslice =>
-    have hn : ¬ i.frameSize > maxAlloc := by omega
-    unfold decodeFrameC
-    split
-    · simp
-    · split
-      · simp
-      · split
-        · simp
-        · split <;> simp
+    by_cases h0 : data.length = 0
+    · unfold decodeFrameC; rw [if_pos h0]; simp
+    by_cases hg : i.Rejected
+    · unfold Info.Rejected at hg; unfold decodeFrameC; rw [if_neg h0, if_pos hg]; simp
+    have hm : ¬ i.frameSize > maxAlloc := by have := frameSize_le_maxAlloc i hg hu; omega
+    rw [decodeFrameC_body i data h0 hg hm]
+    unfold decodeFrameBody
+    cases parseHeader data with
+    | none => simp
+    | some p =>
+      obtain ⟨n, offs⟩ := p
+      simp only
+      by_cases hn : n ≠ i.numberOfSegments
+      · rw [if_pos hn]; simp
+      · rw [if_neg hn]
+        cases decodeSegmentsChk i data n offs n 0 (Array.replicate i.frameSize 0) with
+        | ok b => simp
+        | error e => cases e <;> simp
 
 /-- forget the panic site and the allocation list -/
 def OutcomeC.plain {α} : OutcomeC α → Outcome α
@@ -177,54 +244,69 @@ def OutcomeC.plain {α} : OutcomeC α → Outcome α
   | .err => .err
   | .panic _ => .panic
 
-/-- when the allocation is accepted the C08 view and the C01 model are the same function -/
-theorem decodeFrameC_agrees (i : Info) (data : List Byte) (ha : i.frameSize ≤ maxAlloc) :
+/-- the C08 view and the C01 model are the same function on uint16 descriptions -/
+theorem decodeFrameC_agrees (i : Info) (hu : i.U16) (data : List Byte) :
     (decodeFrameC i data).1.plain = decodeFrame i data := by
-  have hn : ¬ i.frameSize > maxAlloc := by omega
-  unfold decodeFrameC decodeFrame
-  split
-  · rfl
-  · cases parseHeader data with
-    | none => rfl
-    | some p =>
-      obtain ⟨n, offs⟩ := p
-      simp only
-      split
-      · rfl
-      · rw [decodeSegmentsChk_eq]
-        cases decodeSegments i data n offs n 0 (Array.replicate i.frameSize 0) with
-        | error e => simp [liftErr, OutcomeC.plain]
-        | ok b => simp [liftErr, OutcomeC.plain]
+  by_cases h0 : data.length = 0
+  · unfold decodeFrameC decodeFrame; rw [if_pos h0, if_pos h0]; rfl
+  by_cases hg : i.Rejected
+  · unfold Info.Rejected at hg; unfold decodeFrameC decodeFrame
+    rw [if_neg h0, if_pos hg, if_neg h0, if_pos hg]; rfl
+  have hm : ¬ i.frameSize > maxAlloc := by have := frameSize_le_maxAlloc i hg hu; omega
+  rw [decodeFrameC_body i data h0 hg hm]
+  unfold Info.Rejected at hg
+  unfold decodeFrameBody decodeFrame
+  rw [if_neg h0, if_neg hg]
+  cases parseHeader data with
+  | none => rfl
+  | some p =>
+    obtain ⟨n, offs⟩ := p
+    simp only
+    by_cases hn : n ≠ i.numberOfSegments
+    · rw [if_pos hn, if_pos hn]; rfl
+    · rw [if_neg hn, if_neg hn, decodeSegmentsChk_eq]
+      cases decodeSegments i data n offs n 0 (Array.replicate i.frameSize 0) with
+      | error e => simp [liftErr, OutcomeC.plain]
+      | ok b => simp [liftErr, OutcomeC.plain]
 
-theorem bytesAllocated_le (i : Info) : i.bytesAllocated ≤ 8192 := by
-  unfold Info.bytesAllocated; omega
-
-theorem bytesAllocated_le_64 (i : Info) (h1 : 1 ≤ i.bitsAllocated) (h2 : i.bitsAllocated ≤ 512) :
-    i.bytesAllocated ≤ 64 := by
-  unfold Info.bytesAllocated; omega
-
-theorem nativeLen_eq (i : Info) : i.nativeLen = i.bytesAllocated * i.samples := by
-  unfold Info.nativeLen Info.samples
-  simp only [Nat.mul_assoc, Nat.mul_comm, Nat.mul_left_comm]
-
-theorem frameSize_le (i : Info) : i.frameSize ≤ i.bytesAllocated * i.samples + 1 := by
-  unfold Info.frameSize
-  rw [nativeLen_eq]
-  simp only
-  split <;> omega
-
-/-- every allocation of decodeFrame is the frame buffer -/
+/-- every allocation of decodeFrame is the frame buffer, and it happens only for accepted descriptions -/
 theorem decodeFrameC_allocs (i : Info) (data : List Byte) :
-    ∀ a ∈ (decodeFrameC i data).2, a = i.frameSize := by
-  unfold decodeFrameC
-  split
-  · simp
-  · split
-    · simp
-    · split
-      · simp
-      · split
-        · simp
-        · split <;> simp
+    ∀ a ∈ (decodeFrameC i data).2, a = i.frameSize ∧ ¬ i.Rejected := by
+  by_cases h0 : data.length = 0
+  · unfold decodeFrameC; rw [if_pos h0]; simp
+  by_cases hg : i.Rejected
+  · have hg' := hg; unfold Info.Rejected at hg'; unfold decodeFrameC; rw [if_neg h0, if_pos hg']; simp
+  by_cases hm : i.frameSize > maxAlloc
+  · have hg' := hg; unfold Info.Rejected at hg'; unfold decodeFrameC; rw [if_neg h0, if_neg hg', if_pos hm]; simp
+  rw [decodeFrameC_body i data h0 hg hm]
+  unfold decodeFrameBody
+  cases parseHeader data with
+  | none => simp [hg]
+  | some p =>
+    obtain ⟨n, offs⟩ := p
+    simp only
+    by_cases hn : n ≠ i.numberOfSegments
+    · rw [if_pos hn]; simp [hg]
+    · rw [if_neg hn]
+      cases decodeSegmentsChk i data n offs n 0 (Array.replicate i.frameSize 0) with
+      | ok b => simp [hg]
+      | error e => cases e <;> simp [hg]
+
+/-- the frame buffer of an accepted description is at most 15 bytes per declared pixel position,
+    hence at most 15·S + 1 with S = Width·Height·SamplesPerPixel (SamplesPerPixel ≥ 1 there) -/
+theorem frameSize_le_samples (i : Info) (hg : ¬ i.Rejected) : i.frameSize ≤ 15 * i.samples + 1 := by
+  unfold Info.Rejected at hg
+  have h1 := frameSize_le_native i
+  rw [nativeLen_eq_samples] at h1
+  have hb : i.bytesAllocated ≤ 15 := by
+    have hp : 1 ≤ i.spp := by
+      rcases Nat.eq_zero_or_pos i.spp with h | h
+      · exfalso; unfold Info.numberOfSegments at hg; rw [h] at hg; omega
+      · exact h
+    have : i.bytesAllocated * 1 ≤ i.bytesAllocated * i.spp := Nat.mul_le_mul_left _ hp
+    unfold Info.numberOfSegments at hg
+    omega
+  have := Nat.mul_le_mul_right i.samples hb
+  omega
 
 end Rle
